@@ -3,7 +3,7 @@ NOT_APPLICABLE = {}
 TB = "Trusted: Go toolchain packages go/parser, go/scanner, go/format, go/types, go/constant, strconv, reflect; pgregory.net/rapid v1.3.0."
 CHECKS = {
  "C20": {
-  "text": "Generated-history search: rapid draws append/clone histories (<=60 steps quick, <=200 thorough, appends of 0-9 items through twelve builder methods so capacity is and is not exhausted, clones also taken inside Do callbacks, statements added to statements); after every step every live statement is rendered and compared with a list model. No counter-example among the generated histories; absence is not established.",
+  "text": "Generated-history search: rapid draws append/clone histories (<=60 steps quick, <=120 thorough, appends of 0-9 items through fifteen builder methods incl. Case / Default alone with a Block appended later, chains of up to 130 clones of clones so capacity is and is not exhausted, clones also taken inside Do callbacks, statements added to statements); after every step every live statement is rendered and compared with a list model. No counter-example among the generated histories; absence is not established.",
   "note": TB + " The model accepts a live-view or a snapshot semantics of Clone, since the property allows either, but one and the same for every clone of a history.",
   "technique": "stateful property-based testing (rapid) against a list model",
  },
